@@ -134,8 +134,22 @@ def _gen_peer_gone(rng, tier):
                "truth": {}, "reduce": "peer-gone", "sched": {"seed": rng.randrange(1 << 30)}, "horizon": 100.0}
 
 
+def _gen_ping_burst(rng, tier):
+    """Several reads' worth of WebSocket pings arriving at once from a client that takes every pong: both workers answer every one."""
+    from ..wire import ws as _ws
+
+    for i in range(2 if tier == "quick" else 20):
+        n = rng.choice([12000, 15000]) if tier == "quick" else rng.choice([12000, 30000])
+        frames = b"".join(_ws.frame(_ws.OP_PING, b"" if j % 3 else b"%d" % j) for j in range(n))
+        yield {"family": "c16:ws-ping-burst", "source": "c16", "backends": ["asyncio", "trio"], "config": {"keep_alive_timeout": 5000}, "conn": {},
+               "apps": {"default": [["recv"], ["send", {"type": "websocket.accept"}], ["ws_echo"]], "websocket": [["recv"], ["send", {"type": "websocket.accept"}], ["ws_echo"]]},
+               "client": [["feed", _ws.handshake(path=b"/t%d" % (8800000 + i))], ["settle"], ["feed", frames], ["settle"], ["feed", _ws.close_frame(1000)], ["settle"]],
+               "reactor": {"kind": "ws", "echo_close": False}, "truth": {}, "sched": {"seed": rng.randrange(1 << 30)}, "horizon": 100.0}
+
+
 def gen(rng, tier):
     yield from _gen_peer_gone(rng, tier)
+    yield from _gen_ping_burst(rng, tier)
     # the per-connection state seen by an application is part of the scope it is handed: it has to be the same on both workers,
     # also across several connections of one worker (real serve(), loopback)
     for k in range(2 if tier == "quick" else 8):
